@@ -23,26 +23,31 @@ Ord(S) == SortNames(S)
 ProcEnv(d, dt, x, u) == ("dt" :> dt) @@ x @@ d.calmap @@ u
 SensEnv(d, x)        == x @@ d.calmap
 
-ToMat(F, rows, cols) == [i \in 1..Len(rows) |-> [j \in 1..Len(cols) |-> F[rows[i]][cols[j]]]]
-ToVec(f, names)      == [i \in 1..Len(names) |-> f[names[i]]]
+\* fully evaluated named vectors / matrices (see Linalg!MkMat)
+MkNVec(S, F(_))       == TLCEval([n \in S |-> F(n)])
+MkNMat(R, C, F(_, _)) == TLCEval([r \in R |-> TLCEval([c \in C |-> F(r, c)])])
+
+ToMat(F, rows, cols) == MkMat(Len(rows), Len(cols), LAMBDA i, j : F[rows[i]][cols[j]])
+ToVec(f, names)      == MkVec(Len(names), LAMBDA i : f[names[i]])
 FromMat(M, rows, cols) ==
-  [r \in RangeOf(rows) |-> [c \in RangeOf(cols) |-> M[IndexOf(r, rows)][IndexOf(c, cols)]]]
-FromVec(v, names)    == [n \in RangeOf(names) |-> v[IndexOf(n, names)]]
+  MkNMat(RangeOf(rows), RangeOf(cols), LAMBDA r, c : M[IndexOf(r, rows)][IndexOf(c, cols)])
+FromVec(v, names)    == MkNVec(RangeOf(names), LAMBDA n : v[IndexOf(n, names)])
 
 \* ---- process model ------------------------------------------------------
-Step(d, dt, x, u)    == [s \in d.state |-> Eval(d.update[s], ProcEnv(d, dt, x, u))]
-ProcJacTree(d)       == [r \in d.state |-> [c \in d.state |-> Diff(d.update[r], c)]]
-CtrlJacTree(d)       == [r \in d.state |-> [c \in d.control |-> Diff(d.update[r], c)]]
-ProcJac(d, dt, x, u) == [r \in d.state |-> [c \in d.state |->
-                           Eval(Diff(d.update[r], c), ProcEnv(d, dt, x, u))]]
-CtrlJac(d, dt, x, u) == [r \in d.state |-> [c \in d.control |->
-                           Eval(Diff(d.update[r], c), ProcEnv(d, dt, x, u))]]
+Step(d, dt, x, u)    == LET env == TLCEval(ProcEnv(d, dt, x, u)) IN
+                        MkNVec(d.state, LAMBDA s : Eval(d.update[s], env))
+ProcJacTree(d)       == MkNMat(d.state, d.state, LAMBDA r, c : Diff(d.update[r], c))
+CtrlJacTree(d)       == MkNMat(d.state, d.control, LAMBDA r, c : Diff(d.update[r], c))
+ProcJac(d, dt, x, u) == LET env == TLCEval(ProcEnv(d, dt, x, u)) IN
+                        MkNMat(d.state, d.state, LAMBDA r, c : Eval(Diff(d.update[r], c), env))
+CtrlJac(d, dt, x, u) == LET env == TLCEval(ProcEnv(d, dt, x, u)) IN
+                        MkNMat(d.state, d.control, LAMBDA r, c : Eval(Diff(d.update[r], c), env))
 \* process noise matrix M, by control name (diagonal)
-NoiseM(d) == [r \in d.control |-> [c \in d.control |-> IF r = c THEN d.pnoise[r] ELSE Zero]]
+NoiseM(d) == MkNMat(d.control, d.control, LAMBDA r, c : IF r = c THEN d.pnoise[r] ELSE Zero)
 
 \* P' = G P G^T + V M V^T
 PredictF(d, dt, est, u) ==
-  LET so == Ord(d.state)  co == Ord(d.control)
+  LET so == TLCEval(Ord(d.state))  co == TLCEval(Ord(d.control))
       n == Len(so) m == Len(co)
       G == ToMat(ProcJac(d, dt, est.x, u), so, so)
       V == ToMat(CtrlJac(d, dt, est.x, u), so, co)
@@ -54,15 +59,16 @@ PredictF(d, dt, est, u) ==
 
 \* ---- sensor model -------------------------------------------------------
 Readings(d, key)  == DOMAIN d.sensors[key]
-Pred(d, key, x)   == [r \in Readings(d, key) |-> Eval(d.sensors[key][r], SensEnv(d, x))]
-SensJac(d, key, x) == [r \in Readings(d, key) |-> [c \in d.state |->
-                         Eval(Diff(d.sensors[key][r], c), SensEnv(d, x))]]
-NoiseQ(d, key)    == [r \in Readings(d, key) |-> [c \in Readings(d, key) |->
-                         IF r = c THEN d.snoise[key][r] ELSE Zero]]
+Pred(d, key, x)   == LET env == TLCEval(SensEnv(d, x)) IN
+                     MkNVec(Readings(d, key), LAMBDA r : Eval(d.sensors[key][r], env))
+SensJac(d, key, x) == LET env == TLCEval(SensEnv(d, x)) IN
+                      MkNMat(Readings(d, key), d.state, LAMBDA r, c : Eval(Diff(d.sensors[key][r], c), env))
+NoiseQ(d, key)    == MkNMat(Readings(d, key), Readings(d, key),
+                            LAMBDA r, c : IF r = c THEN d.snoise[key][r] ELSE Zero)
 
 \* everything the Kalman correction computes, as one record (positional inside)
 Kalman(d, key, est, z) ==
-  LET so == Ord(d.state)  ro == Ord(Readings(d, key))
+  LET so == TLCEval(Ord(d.state))  ro == TLCEval(Ord(Readings(d, key)))
       n == Len(so)  m == Len(ro)
       H == ToMat(SensJac(d, key, est.x), ro, so)
       P == ToMat(est.P, so, so)
@@ -72,7 +78,7 @@ Kalman(d, key, est, z) ==
       Si == MInv(S)
       y == VSub(ToVec(z, ro), ToVec(Pred(d, key, est.x), ro))
       K == MatMulD(PHt, Si, n, m, m)
-      nis == Quad(y, Si)
+      nis == TLCEval(Quad(y, Si))
       xn == VAdd(ToVec(est.x, so), MatVec(K, y))
       Pn == MSub(P, MatMulD(MatMulD(K, H, n, m, n), P, n, n, n))
   IN [innov |-> FromVec(y, ro), S |-> FromMat(S, ro, ro), Sinv |-> FromMat(Si, ro, ro),
